@@ -90,6 +90,8 @@ def _symbolic_leg(ob, job, cfg):
             L = kit.Lifted(pb, lift_V0=True)
             holder["L"] = L
             pathx.CUR.assume(z3.And(*L.pre))
+            # another solver with a different partition built earlier on the same Problem instance must not matter
+            kit.make_solver("vi", pb, max_batch_size=job["bs"] + 3)
             vi = kit.make_solver("vi", pb, max_batch_size=job["bs"])
             init = val_of(vi.values)
             vi.values = sym("V", (n,))
@@ -209,6 +211,7 @@ def real_run_ok(name, pb, cfg, T, R, P, V0):
     n = cfg["S"]
     g = 1.0 if name == "rvi" else 0.9
     try:
+        kit.make_solver(name, pb, max_batch_size=cfg["bs"] + 3, epsilon=1e-3)   # an earlier solver with another partition on the same Problem
         s = kit.make_solver(name, pb, max_batch_size=cfg["bs"], epsilon=1e-3)
         st = s.solve(3)
         vals = np.asarray(st.values)
